@@ -212,8 +212,14 @@ func (br *xmpReader) readTagHeader(parent Tag) (tag Tag, err error) {
 	// Read Tag Header
 	var buf []byte
 	var i int
+	var skipped bool
 	for {
 		if buf, err = br.Peek(s); err != nil {
+			if skipped && err == io.EOF {
+				// nothing but skipped bytes up to the end of the stream: reported, as it always
+				// was, as a window that could not be filled
+				err = ErrBufferFull
+			}
 			err = errors.Wrap(err, "Tag Header")
 			return
 		}
@@ -243,9 +249,16 @@ func (br *xmpReader) readTagHeader(parent Tag) (tag Tag, err error) {
 				goto end
 			}
 		}
-		// large white spaces in xmp files
-		if i < len(buf) {
-			s = i + maxTagHeaderSize
+		// large white spaces in xmp files: what lies in front of the tag is skipped for good, so
+		// that the window does not have to hold it (a run longer than the reader's buffer is legal)
+		if i > 0 {
+			if _, err = br.Discard(i); err != nil {
+				err = errors.Wrap(err, "Tag Header (discard)")
+				return
+			}
+			i = 0
+			s = maxTagHeaderSize
+			skipped = true
 		} else {
 			s += maxTagHeaderSize
 		}
@@ -291,6 +304,16 @@ func (br *xmpReader) readTagValue() (buf []byte, err error) {
 					continue
 				}
 				break
+			}
+			if i == len(buf) && i > 0 {
+				// nothing but leading white space in the window: it is skipped for good, so that
+				// a run longer than the reader's buffer does not have to fit into it
+				if _, err = br.Discard(i); err != nil {
+					err = errors.Wrap(err, "Tag Value (discard)")
+					return nil, err
+				}
+				i, s = 0, maxTagValueSize
+				continue
 			}
 			j = i
 		}
